@@ -775,6 +775,27 @@ func runC11(c *Check) {
 				if p.DeepContains(k, func(t *Term) bool { return t.Op == "index" && t.Args[0].String() == batchTxs.String() }, 2) {
 					okMark = true
 				}
+				// … or of a list built index-aligned with it by the same helper (the hashes of the
+				// submitted transactions, computed once while filtering)
+				if p.DeepContains(k, func(t *Term) bool {
+					if t.Op != "index" {
+						return false
+					}
+					h, s := t.Args[0].unconv(), batchTxs.unconv()
+					if h.Op != "extract" || s.Op != "extract" || len(h.Args) == 0 || len(s.Args) == 0 || h.Args[0].V == nil || h.Args[0].V != s.Args[0].V {
+						return false
+					}
+					call, ok := h.Args[0].V.(*ssa.Call)
+					if !ok || call.Common().StaticCallee() == nil {
+						return false
+					}
+					var hi, si int
+					fmt.Sscan(h.Name, &hi)
+					fmt.Sscan(s.Name, &si)
+					return alignedResults(p, call.Common().StaticCallee(), si, hi)
+				}, 2) {
+					okMark = true
+				}
 			}
 			if okMark {
 				c.OK("C11-R1", "Reaper ⟂ marked=submitted", fn, posOf(g, isPut), "the marked transactions are the elements of the submitted slice", true)
@@ -1128,4 +1149,71 @@ func rulePoppedBatchHandedOut(c *Check, p *Prog, rule string) {
 	c.Decide(rule, "Next ⟂ popped-batch-is-handed-out", fnName(next), p.InstrPos(pops[0].In), "after the head was removed from the in-memory queue every return hands the batch out",
 		"after the head was removed from the in-memory queue Next can return no batch (an error path): the batch is neither delivered nor kept, so its transactions are lost while the node runs and re-appear out of order after a restart", g,
 		g.PathAvoiding(pops, nodeSet(nilExits), nil))
+}
+
+// alignedResults: results si and hi of fn are lists built index-aligned — every append to the one
+// sits in the same basic block as an append to the other, the element appended to hi derives from
+// the element appended to si, and both are returned as they were built.
+func alignedResults(p *Prog, fn *ssa.Function, si, hi int) bool {
+	if fn == nil || fn.Blocks == nil {
+		return false
+	}
+	ctx := &Ctx{Fn: fn}
+	// the appends feeding a returned value
+	feeds := func(idx int) []*ssa.Call {
+		var out []*ssa.Call
+		seen := map[ssa.Value]bool{}
+		var walk func(v ssa.Value, d int)
+		walk = func(v ssa.Value, d int) {
+			if v == nil || seen[v] || d > 8 {
+				return
+			}
+			seen[v] = true
+			switch x := v.(type) {
+			case *ssa.Phi:
+				for _, e := range x.Edges {
+					walk(e, d+1)
+				}
+			case *ssa.Call:
+				if b, ok := x.Common().Value.(*ssa.Builtin); ok && b.Name() == "append" {
+					out = append(out, x)
+					walk(x.Common().Args[0], d+1)
+				}
+			}
+		}
+		for _, b := range fn.Blocks {
+			if ret, ok := b.Instrs[len(b.Instrs)-1].(*ssa.Return); ok && idx < len(ret.Results) {
+				walk(spilledResult(ret, idx), 0)
+			}
+		}
+		return out
+	}
+	sa, ha := feeds(si), feeds(hi)
+	if len(sa) == 0 || len(sa) != len(ha) {
+		return false
+	}
+	for _, h := range ha {
+		ok := false
+		for _, s := range sa {
+			if s.Block() != h.Block() || len(s.Common().Args) < 2 || len(h.Common().Args) < 2 {
+				continue
+			}
+			// the element appended: the single element of the variadic slice
+			se, he := TermOf(s.Common().Args[1], ctx), TermOf(h.Common().Args[1], ctx)
+			var sElem *Term
+			se.Walk(func(t *Term) bool {
+				if sElem == nil && t.Op == "index" {
+					sElem = t
+				}
+				return sElem == nil
+			})
+			if sElem != nil && p.DeepContains(he, func(t *Term) bool { return t.String() == sElem.String() }, 1) {
+				ok = true
+			}
+		}
+		if !ok {
+			return false
+		}
+	}
+	return true
 }
